@@ -245,6 +245,33 @@ def check(run):
         if run.too_many():
             break
 
+    # the writer's nthreads option: frames of very different compression cost (incompressible first, all-zero later), several MiB,
+    # many blocks -- the frames must still come out in block order, whatever finishes first
+    for t, nth in enumerate([2, 4, 8, 3] if run.quick else [2, 3, 4, 8, 16, 2, 4, 8]):
+        nblk = 12 + t
+        cbs = 1 << 18
+        parts = [rng.integers(0, 256, cbs, dtype=np.uint8) if b < 3 or b % 5 == 0 else np.zeros(cbs, dtype=np.uint8) for b in range(nblk)]
+        parts.append(np.arange(1000 + t, dtype=np.uint8))  # short last block
+        payload = np.concatenate(parts).tobytes()
+        data = memoryview(np.frombuffer(payload, dtype=np.uint32 if len(payload) % 4 == 0 else np.uint8))
+        desc = dict(writer_nthreads=nth, nblocks=nblk + 1, payload_bytes=len(payload), compression_block_size=cbs)
+        run.progress(desc)
+        for rep in range(2):
+            run.ev()
+            try:
+                frames = list(comp.compress(data, compression_block_size=cbs, nthreads=nth))
+                stream = b''.join(bytes(f) for f in frames)
+                ob = np.zeros(len(payload), dtype=np.uint8)
+                ret = comp.decompress(iter(split(stream, [len(stream) // 3, len(stream) // 3 + 2])), ob.data)
+            except Exception as e:
+                run.violation('writer-threads-' + type(e).__name__, dict(error=f'{type(e).__name__}: {e}'[:200], **desc))
+                break
+            run.nt(('writer-threads', nth, rep))
+            run.count('threaded_writer_round_trips')
+            if ret != len(payload) or bytes(ob) != payload:
+                first = next((i for i in range(0, len(payload), cbs) if bytes(ob[i : i + cbs]) != payload[i : i + cbs]), None)
+                run.violation('writer-threads-round-trip-differs', dict(returned=int(ret), first_differing_block=None if first is None else first // cbs, **desc))
+                break
     # two decompressions in flight on the one compressor object that asdf keeps per process: the chunk source of the outer
     # stream runs a complete decompression of another stream between two of its chunks (both split inside frames)
     multi = [S for S in streams if len(S['stream']) > 40 and S['nel'] > 0]
